@@ -326,6 +326,15 @@ func txUpdateAttrs(tx *bolt.Tx, id uint64, m map[string]interface{}) (map[string
 		}
 	}
 
+	// Remove the record when no attribute is left, so that the id no longer
+	// occupies its block (Blocks/BlockData).
+	if len(attr) == 0 {
+		if err := tx.Bucket([]byte("attrs")).Delete(u64tob(id)); err != nil {
+			return nil, errors.Wrap(err, "deleting attrs")
+		}
+		return attr, nil
+	}
+
 	// Marshal and save new values.
 	buf, err := pilosa.EncodeAttrs(attr)
 	if err != nil {
